@@ -455,11 +455,14 @@ _old_ite = P.ite
 
 def _ite(c, a, b):
     if isinstance(a, (SymReal, SymIntZ)) or isinstance(b, (SymReal, SymIntZ)):
-        if isinstance(a, (SymReal, float)) or isinstance(b, (SymReal, float)):
+        from fractions import Fraction as _Fr
+        if isinstance(a, (SymReal, float, _Fr)) or isinstance(b, (SymReal, float, _Fr)):
             a2 = a if isinstance(a, SymReal) else (SymReal(z3.ToReal(a.t)) if isinstance(a, SymIntZ) else SymReal(rv(q(a))))
             b2 = b if isinstance(b, SymReal) else (SymReal(z3.ToReal(b.t)) if isinstance(b, SymIntZ) else SymReal(rv(q(b))))
             return SymReal(z3.If(c, a2.t, b2.t))
         a2, b2 = SymIntZ.lift(a), SymIntZ.lift(b)
+        if a2 is None or b2 is None:
+            raise Unsupported("cannot merge %r with %r" % (type(a), type(b)))
         return SymIntZ(z3.If(c, a2.t, b2.t))
     return _old_ite(c, a, b)
 
